@@ -24,7 +24,8 @@ Record params := {
 }.
 
 Record brow := { b_id : string; b_postal : string; b_w : Q }.                         (* baseline: id, state, baseline_weights *)
-Record frow := { f_id : string; f_postal : string; f_rw : Q; f_pev : Q }.              (* feed: id, state, results_weights, percent *)
+(* feed: id, state, results_weights, percent; f_nan = the row is in the feed but one of the requested results columns is missing (NaN) *)
+Record frow := { f_id : string; f_postal : string; f_rw : Q; f_pev : Q; f_nan : bool }.
 
 (* a row of self.data (baseline left-joined with the feed) *)
 Record drow := { d_id : string; d_postal : string; d_w : Q; d_rw : Q; d_pev : Q; d_flag_t : bool; d_flag_m : bool }.
@@ -38,13 +39,16 @@ Definition find_feed (feed : list frow) (postal id : string) : option frow :=
 (* flags: ids flagged by the turnout / margin outlier model (oracle) *)
 Definition join (p : params) (flag_t flag_m : list string) (base : list brow) (feed : list frow) : list drow :=
   flat_map (fun b =>
+    (* no results for this unit (not in the feed, or in the feed with a missing value): dropna under "drop", zeros under "zero" *)
+    let missing := if p_zero_policy p
+                   then [ {| d_id := b_id b; d_postal := b_postal b; d_w := b_w b; d_rw := 0; d_pev := 0;
+                             d_flag_t := smem (b_id b) flag_t; d_flag_m := smem (b_id b) flag_m |} ]
+                   else [] in
     match find_feed feed (b_postal b) (b_id b) with
-    | Some f => [ {| d_id := b_id b; d_postal := b_postal b; d_w := b_w b; d_rw := f_rw f; d_pev := f_pev f;
-                     d_flag_t := smem (b_id b) flag_t; d_flag_m := smem (b_id b) flag_m |} ]
-    | None => if p_zero_policy p
-              then [ {| d_id := b_id b; d_postal := b_postal b; d_w := b_w b; d_rw := 0; d_pev := 0;
-                        d_flag_t := smem (b_id b) flag_t; d_flag_m := smem (b_id b) flag_m |} ]
-              else []
+    | Some f => if f_nan f then missing
+                else [ {| d_id := b_id b; d_postal := b_postal b; d_w := b_w b; d_rw := f_rw f; d_pev := f_pev f;
+                          d_flag_t := smem (b_id b) flag_t; d_flag_m := smem (b_id b) flag_m |} ]
+    | None => missing
     end) base.
 
 (* Estimandizer.add_turnout_factor: nan / inf replaced by 0 *)
